@@ -82,6 +82,7 @@ type vfEvent struct {
 	RRef    int     `json:"rref"`
 	Ops     []vfOp  `json:"ops"`
 	Faults  []int   `json:"faults"`
+	Faults2 []int   `json:"faults2"` // create calls that return an error AFTER having installed the rule
 	Reports []vfRep `json:"reports"`
 	TT      string  `json:"tt"`
 	TPeer   string  `json:"tpeer"`
@@ -178,12 +179,13 @@ type vfTwin struct {
 	calls  []vfCall
 	nstep  int          // ordinal of data-plane calls in the current step
 	faults map[int]bool // ordinals (within the step) of create/update/query calls that fail
+	fault2 map[int]bool // ordinals of create calls that fail after having taken effect (e.g. lost acknowledgement)
 	tok    *int
 	h      report.Handler
 }
 
 func vfNewTwin(tok *int) *vfTwin {
-	return &vfTwin{rules: map[vfKey]bool{}, faults: map[int]bool{}, tok: tok}
+	return &vfTwin{rules: map[vfKey]bool{}, faults: map[int]bool{}, fault2: map[int]bool{}, tok: tok}
 }
 
 var vfT0 = time.Date(2024, 1, 1, 0, 0, 0, 0, time.UTC)
@@ -254,6 +256,10 @@ func (tw *vfTwin) do(op, kind string, seid uint64, id int) ([]report.USAReport, 
 			err = fmt.Errorf("twin: EEXIST")
 		} else {
 			tw.rules[key] = true
+			if tw.fault2[ord] {
+				err = fmt.Errorf("twin: injected fault after the rule was installed")
+				c.Res = "err+"
+			}
 		}
 	default:
 		if !tw.rules[key] {
@@ -267,7 +273,7 @@ func (tw *vfTwin) do(op, kind string, seid uint64, id int) ([]report.USAReport, 
 		reps = append(reps, r)
 		c.Reps = append(c.Reps, rep)
 	}
-	if err != nil {
+	if err != nil && c.Res == "ok" {
 		c.Res = "err"
 	}
 	tw.calls = append(tw.calls, c)
@@ -286,12 +292,16 @@ func (tw *vfTwin) take() []vfCall {
 	return c
 }
 
-func (tw *vfTwin) setFaults(f []int) {
+func (tw *vfTwin) setFaults(f, f2 []int) {
 	tw.mu.Lock()
 	defer tw.mu.Unlock()
 	tw.faults = map[int]bool{}
 	for _, x := range f {
 		tw.faults[x] = true
+	}
+	tw.fault2 = map[int]bool{}
+	for _, x := range f2 {
+		tw.fault2[x] = true
 	}
 }
 
@@ -950,6 +960,9 @@ func vfNorm(e *vfEvent) {
 	if e.Faults == nil {
 		e.Faults = []int{}
 	}
+	if e.Faults2 == nil {
+		e.Faults2 = []int{}
+	}
 	if e.Reports == nil {
 		e.Reports = []vfRep{}
 	}
@@ -960,7 +973,7 @@ func (x *vfExec) step(r *vfRun, e *vfEvent) (vfLine, error) {
 	var ln vfLine
 	vfNorm(e)
 	r.resolve(e)
-	r.twin.setFaults(e.Faults)
+	r.twin.setFaults(e.Faults, e.Faults2)
 	n0 := x.gate.count()
 	switch e.T {
 	case "report":
